@@ -74,6 +74,7 @@ let parse_seq (toks : string list) : cfg list =
       let c = { c_as_ = 0; rid = 0; pols = []; ris = []; nobgp = false; grps = [] } in
       cs := c :: !cs; cur := Some c; g := None; n := None
     | "nobgp" -> (match !cur with Some c -> c.nobgp <- true | None -> fail "nobgp outside cfg")
+    | "isis" -> ()  (* IS-IS section: not part of the BGP model; its observation (I<a>/<b>) is judged by the harness *)
     | "grp" ->
       (match !cur with
        | Some c -> let x = { gc = new_common (); nbs = [] } in c.grps <- c.grps @ [x]; g := Some x; n := None
@@ -228,6 +229,7 @@ let split_steps (obs : string list) : (string * string) list =
     | None -> () in
   List.iter (fun t ->
     if String.length t >= 2 && t.[0] = '#' then (flush (); cur := Some t; buf := [])
+    else if Str.string_match (Str.regexp "^I[0-9]+/[0-9]+$") t 0 then ()
     else buf := t :: !buf) obs;
   flush ();
   List.rev !steps
